@@ -38,9 +38,6 @@ type PipelineManager interface {
 
 // GetPipelineManager returns a singleton PipelineManager instance.
 func GetPipelineManager() PipelineManager {
-	if mgr != nil {
-		return mgr
-	}
 	once4Mgr.Do(func() {
 		mgr = newPipelineManager()
 	})
